@@ -188,3 +188,36 @@ REG.spec('agent/executing/base.py:AgentExecutingComponent._get_rp_env',
        'ite(self._prof.enabled, "export RP_PROF_TGT=\\"%s/%s.prof\\"\\n" % (rp_sbox(self._pwd, task), task.uid), "unset  RP_PROF_TGT\\n")'),
     ],
     serves  = ['C10'])
+
+
+# ------------------------------------------------------------------------------
+# Popen._handle_task, the statements that name the task's stdout / stderr files
+# (the names _get_launch then redirects to, contract above)
+SDesc = T.Rec('StdioDesc', stdout=OStr, stderr=OStr)
+STask = T.RecD('StdioTask', dict(uid=T.Str, description=SDesc, task_sandbox_path=T.Str, stdout=OStr, stderr=OStr,
+               stdout_file=OStr, stdout_file_short=OStr, stderr_file=OStr, stderr_file_short=OStr))
+
+def _named(k, tid='tid'):
+    return 'ite(td.%s is not None and val(td.%s) != "", val(td.%s), "%%s.%s" %% %s)' % (k, k, k, k[3:], tid)
+
+def _stdio_post(k):
+    n = _named(k)
+    return ('val(task.%(k)s_file) == ite(%(n)s[0] != "/", "%%s/%%s" %% (sbox, %(n)s), %(n)s) and '
+            'val(task.%(k)s_file_short) == ite(%(n)s[0] != "/", "$RP_TASK_SANDBOX/%%s" %% %(n)s, %(n)s)') % dict(k=k, n=n)
+
+REG.spec('agent/executing/popen.py:Popen._handle_task#stdio',
+    fragment = 'stdout_file',
+    fragment_marker = "td.get('stdout')",
+    fragment_until  = "task['stderr_file_short']",
+    params  = dict(task=STask, td=SDesc, tid=T.Str, sbox=T.Str),
+    locals  = dict(stdout_file=T.Str, stderr_file=T.Str),
+    modifies = ['task'],
+    raises  = {},
+    ensures = [
+      ('stdout-goes-to-the-described-file-absolute-as-given-relative-inside-the-task-sandbox-default-uid-out', _stdio_post('stdout')),
+      ('stderr-goes-to-the-described-file-decided-by-its-own-name', _stdio_post('stderr')),
+      ('nothing-else-of-the-task-changes',
+       'task.uid == old(task).uid and task.description == old(task).description and task.task_sandbox_path == old(task).task_sandbox_path '
+       'and task.stdout == old(task).stdout and task.stderr == old(task).stderr'),
+    ],
+    serves  = ['C10'])
